@@ -648,6 +648,55 @@ func runC20(r *core.Run) {
 			return core.OK("mirrored", len(orig) >= 2)
 		})
 
+	type symNear struct {
+		Pairs [][2]int `json:"score_index_pairs"` // for the three mirrored pairs (A,B) (A,Gap) (B,Gap): indices into the score menu, -1 = absent
+	}
+	nearScores := []float64{0.3, 0.1 + 0.2, 0.3 + 5e-10, 0.3 - 1e-12, 1e300, 1e300 * (1 + 1e-15), -0.0, 5e-324}
+	core.Clause(r, "symmetrical-near-equal", core.Opts{Rule: "mirrored pairs whose scores differ by one ulp, by 5e-10, by 1e-12, at 1e300, 0 vs the smallest subnormal: Symmetrical panics iff the two scores are different float64 values (==), every combination over 3 mirrored pairs of one conflicting pair plus consistent others; non-trivial = all"},
+		func(emit func(symNear) bool) {
+			for i := range nearScores {
+				for j := range nearScores {
+					for which := 0; which < 3; which++ {
+						p := [][2]int{{0, 0}, {1, 1}, {-1, -1}}
+						p[which] = [2]int{i, j}
+						if !emit(symNear{p}) {
+							return
+						}
+					}
+				}
+			}
+		},
+		func(c symNear) core.Outcome {
+			keys := [][2]byte{{'A', 'B'}, {'A', align.Gap}, {'B', align.Gap}}
+			m := align.SubstitutionMatrix{}
+			conflict := false
+			for k, p := range c.Pairs {
+				if p[0] < 0 {
+					continue
+				}
+				a, b := nearScores[p[0]], nearScores[p[1]]
+				m[keys[k]] = a
+				m[[2]byte{keys[k][1], keys[k][0]}] = b
+				if a != b {
+					conflict = true
+				}
+			}
+			var res align.SubstitutionMatrix
+			p := catch(func() { res = m.Symmetrical() })
+			if conflict && p == "" {
+				return core.Failf("Symmetrical of %v did not panic although mirrored pairs carry different scores (returned %v)", m, res)
+			}
+			if !conflict && p != "" {
+				return core.Failf("Symmetrical of %v panicked although all mirrored pairs are equal: %s", m, p)
+			}
+			if !conflict {
+				if f := sameMatrix(res, m); f != "" {
+					return core.Failf("Symmetrical of the already symmetric %v changed it: %s", m, f)
+				}
+			}
+			return core.OK(fmt.Sprint("conflict=", conflict), true)
+		})
+
 	gbytes := []int{0, '\'', '\\', 0x7f, 0x80, 0xfe, 255, 'A', '"', '\n'}
 	gscores := []string{"0.1", "-2.5", "1e+21", "1e-07", "0", "-0", "3", "123456789.125"}
 	core.Clause(r, "gostring", core.Opts{Rule: "every 1-pair and 2-pair matrix over the byte menu {0,',\\,0x7f,0x80,0xfe,Gap,A,\",LF} with every score of the menu, all 3^9 partial matrices, and one matrix with all 100 pairs: the output parsed with go/parser and evaluated with go/constant yields the same map, one entry per pair, keys strictly ascending bytewise, and the genncbi composition passes go/format; non-trivial = all non-empty"},
